@@ -300,7 +300,25 @@ struct world
       bf src = canon(m);
       bf r = canon(rand_mask(g));
       for (unsigned k = 0; k < N; ++k)
-        r[en(k)] = src[en(k)];
+      {
+        // alternately from a temporary reference (move assignment of the proxy) and from a named one (copy assignment),
+        // same enumerator in two different bitfields
+        if ((k + m) % 2 == 0)
+          r[en(k)] = src[en(k)];
+        else
+        {
+          typename bf::reference named = src[en(k)];
+          r[en(k)] = named;
+        }
+      }
+      {
+        // chained assignment through a third bitfield: a[e] = b[e] = value
+        bf a = canon(rand_mask(g)), b = canon(rand_mask(g));
+        for (unsigned k = 0; k < N; ++k)
+          a[en(k)] = b[en(k)] = bit(m, k);
+        step("operator[]=", a, m, m, 0);
+        step("operator[]=", b, m, m, 0);
+      }
       // within one bitfield: move the bits one position up and back down again through the proxy
       if (N >= 2)
       {
